@@ -250,6 +250,16 @@ def check_wellformed(case, ctx, force, make_idnt):
             if guard.ok:
                 ctx.check(is_index(idx_i) and idx_i == idx, "indentation-index-differs", desc,
                           f"Indentation.estimate_contact_point_index gives {idx_i!r}, compute_poc {idx}")
+                # the estimate follows the curve's current force data (column replaced on the same object)
+                force2 = np.ascontiguousarray(force[::-1]) + 0.5 * float(np.ptp(force))
+                ok2, idx2 = call(ctx, "raises", dict(desc, call="replaced-force"), force2, m)
+                idnt["force"] = force2.copy()
+                with ctx.no_raise("raises", dict(desc, call="Indentation-replaced-force")) as guard2:
+                    idx2_i = idnt.estimate_contact_point_index(method=m)
+                if ok2 and guard2.ok:
+                    ctx.check(idx2_i == idx2, "indentation-index-stale", desc,
+                              f"after replacing the force column the curve estimates {idx2_i!r}, compute_poc on the "
+                              f"new data gives {idx2!r} (old data: {idx})")
         if "pow2" in ops:
             ok, i2 = call(ctx, "raises", dict(desc, call="pow2"), force * 2.0 ** case["j"], m)
             if ok:
